@@ -282,6 +282,18 @@ def node_check(pid, tier, seed):
                     for si, sc in enumerate([x for x in scheds2 if x['shape'] == shp]):
                         jobs.append(dict(id='%s-pf%d-%d' % (pid, pi, si), cfg={}, blocks=shape_history(txs, shp), schedule=sc['schedule'], upgradeAt=0))
                 shapes = shapes + [list(x) for x in shapes2]
+        if pid == 'C10':
+            # a long run of (mostly empty) blocks over a populated state, a deposit to the burn address at both ends, one crash anywhere: whatever a module
+            # keeps in process memory across blocks (counters, "last done at height" marks, caches) is lost by the restarted node and kept by the twin
+            long_shape = [1] + [0] * (8 if q else 11) + [1, 0]
+            scheds3, st3, tr3 = node_schedules(work, [long_shape], 1, [0])
+            states += st3
+            trans += tr3
+            dep = lambda n: dict(msgs=[dict(type='bank.Send', to='burn', denom='umed', amt=n, **{'from': 'a1'})], signers=['a1'], fee=0, exec='none')
+            blocks = [[dep(7)]] + [[] for _ in long_shape[1:-2]] + [[dep(3)], []]
+            for si, sc in enumerate(scheds3):
+                jobs.append(dict(id='%s-long-%d' % (pid, si), cfg={}, prefix=populated_prefix(), blocks=blocks, schedule=sc['schedule'], upgradeAt=0))
+            shapes = shapes + [long_shape]
         log('%s: %d schedules from TLC, %d jobs' % (pid, len(scheds), len(jobs)))
         traces = run_harness_jobs(work, harness, 'node', jobs)
         mc_wrapper(work, 'MCNodeTrace', 'NodeTrace', dict(ShapesC='{}', UpC='{}'))
